@@ -52,13 +52,29 @@ func c19ShareVariant(rng *rand.Rand, src keygen.LocalPartySaveData, i int) keyge
 func TestVerif_C19_Tecdsa(t *testing.T) {
 	r := verifkit.Start(t, "C19", "tecdsa")
 	defer r.Finish()
+	if decs := c19TecdsaDecoders(r); decs != nil {
+		c19Run(r, "tecdsa", decs)
+	}
+}
+
+// TestVerif_C19_TecdsaRace decodes key shares and signatures from four
+// goroutines.
+func TestVerif_C19_TecdsaRace(t *testing.T) {
+	r := verifkit.Start(t, "C19", "tecdsa-race")
+	defer r.Finish()
+	if decs := c19TecdsaDecoders(r); decs != nil {
+		c19RaceRun(r, "tecdsa", decs)
+	}
+}
+
+func c19TecdsaDecoders(r *verifkit.Run) []c19Decoder {
 	shares, err := tecdsatest.LoadPrivateKeyShareTestFixtures(5)
 	if err != nil {
 		r.Inconclusive("cannot load key share fixtures: " + err.Error())
-		return
+		return nil
 	}
 	const f = "marshaling.go"
-	c19Run(r, "tecdsa", []c19Decoder{
+	return []c19Decoder{
 		{
 			Type: "PrivateKeyShare", File: f,
 			New: func() c19Codec { return &PrivateKeyShare{} },
@@ -75,5 +91,5 @@ func TestVerif_C19_Tecdsa(t *testing.T) {
 			// int32 recoveryID = 3 is narrowed to int8
 			Ranges: []c19Range{{Path: "3", Min: -128, Max: 127, Signed: true}},
 		},
-	})
+	}
 }
